@@ -574,6 +574,18 @@ def classify_import_error(e: BaseException, schema=None) -> str:
     return "import_error"
 
 
+def import_failure(e: BaseException, schema, sdl: str) -> tuple[str, dict]:
+    """(mechanism, further classification keys) of an exception raised while the module is loaded"""
+    mech = classify_import_error(e, schema)
+    extra: dict = {}
+    if mech == "single_member_union_before_member":
+        # the trigger of the recorded finding: the member class is kept back by the first pass of
+        # sort_data_models (an interface it implements is not placed when it is visited) while the alias
+        # is placed by it; a single-member alias that fails over an EARLY member is something else
+        extra["member_kept_back"] = getattr(e, "name", None) in c17_order.first_pass_late(c17_order.schema_defs(sdl))
+    return mech, extra
+
+
 def unbound_aliased(code: str) -> list[str]:
     tree = ast.parse(code)
     bound = {n.name for n in ast.walk(tree) if isinstance(n, (ast.ClassDef, ast.FunctionDef))}
@@ -643,10 +655,11 @@ def oracle_case(ck: Check, camp, sdl: str, kind: str, flags: dict, scalar_map: d
         if isinstance(e, (KeyboardInterrupt, SystemExit)):
             raise
         observation["import_error"] = (type(e).__name__, getattr(e, "name", None))
-        fail(classify_import_error(e, schema), f"importing the generated module raised {type(e).__name__}: {str(e)[:200]}")
+        mech, extra = import_failure(e, schema, sdl)
+        fail(mech, f"importing the generated module raised {type(e).__name__}: {str(e)[:200]}", **extra)
         return
     try:
-        _check_module(ck, camp, fail, schema, mod, code, kind, flags, scalar_map, seed)
+        _check_module(ck, camp, fail, schema, mod, code, kind, flags, scalar_map, seed, sdl)
     finally:
         e2e.unload(mod)
     if not failed:
@@ -655,7 +668,7 @@ def oracle_case(ck: Check, camp, sdl: str, kind: str, flags: dict, scalar_map: d
         camp.samples.append({"sdl": sdl, "model": kind, "flags": flags, "scalar_map": scalar_map})
 
 
-def _check_module(ck, camp, fail, schema, mod, code, kind, flags, scalar_map, seed) -> None:
+def _check_module(ck, camp, fail, schema, mod, code, kind, flags, scalar_map, seed, sdl) -> None:
     import graphql
 
     fo = bool(flags.get("force_optional_for_required_fields"))
@@ -729,13 +742,15 @@ def _check_module(ck, camp, fail, schema, mod, code, kind, flags, scalar_map, se
             elif kind == "pydantic.BaseModel":
                 cls.update_forward_refs(**vars(mod))
         except Exception as e:  # noqa: BLE001
-            return fail(classify_import_error(e, schema), f"resolving the annotations of class {n} raised {type(e).__name__}: {str(e)[:200]}")
+            mech, extra = import_failure(e, schema, sdl)
+            return fail(mech, f"resolving the annotations of class {n} raised {type(e).__name__}: {str(e)[:200]}", **extra)
     for n, t in object_like.items():
         cls = getattr(mod, n)
         try:
             hints = typing.get_type_hints(cls, globalns=vars(mod))
         except Exception as e:  # noqa: BLE001
-            return fail(classify_import_error(e, schema), f"annotations of class {n} do not evaluate: {type(e).__name__}: {str(e)[:200]}")
+            mech, extra = import_failure(e, schema, sdl)
+            return fail(mech, f"annotations of class {n} do not evaluate: {type(e).__name__}: {str(e)[:200]}", **extra)
         info = member_info(cls, kind)
         # one member per field plus the __typename member
         want_members = set(t.fields) | {"typename__"}
